@@ -445,7 +445,9 @@ Qed.
 Lemma hreq_view_faithful (H : bytes -> bytes) (r : creq) (mt : N) :
   lang_known the_spec (lang r) = true -> mtime r = mt_of mt ->
   let r' := mk_creq (req_of r) (env r) (pp r) (input r) (ignore_time r) (date r) (sde r) mt in
-  encode_c H the_spec r' = encode_c H the_spec r /\ encode_pp H the_spec r' = encode_pp H the_spec r /  gated the_spec r' = gated the_spec r /\ KeyEnc.key H the_spec r' = KeyEnc.key H the_spec r /  KeyEnc.pp_key H the_spec r' = KeyEnc.pp_key H the_spec r.
+  encode_c H the_spec r' = encode_c H the_spec r /\ encode_pp H the_spec r' = encode_pp H the_spec r /\
+  gated the_spec r' = gated the_spec r /\ KeyEnc.key H the_spec r' = KeyEnc.key H the_spec r /\
+  KeyEnc.pp_key H the_spec r' = KeyEnc.pp_key H the_spec r.
 Proof.
   intros K Hm r'.
   assert (Et : tag_of the_spec (lang r') = tag_of the_spec (lang r)).
